@@ -197,6 +197,11 @@ def _convert_known_call(func: str, node: ast.Call) -> libsbml.ASTNode:
             msg = f"{func} with {len(node.args)} arguments"
             raise NotImplementedError(msg)
         sbml_node = libsbml.ASTNode(typ)
+        if typ == libsbml.AST_FUNCTION_LOG:
+            # MathML's log takes its base as first child, log10 is log to base 10
+            base = libsbml.ASTNode(libsbml.AST_INTEGER)
+            base.setValue(10)
+            sbml_node.addChild(base)
         sbml_node.addChild(_convert_node(node.args[0]))
         return sbml_node
     if (typ := BINARY.get(func)) is not None:
@@ -338,7 +343,13 @@ def _tree_to_sbml(
 
 
 def _sbmlify_fn(fn: Callable, user_args: list[str]) -> libsbml.ASTNode:
-    return _tree_to_sbml(get_fn_ast(fn), args=user_args)
+    node = _tree_to_sbml(get_fn_ast(fn), args=user_args)
+    # libsbml silently refuses (setMath returns an error code) a tree that is
+    # not well-formed, which would leave the component without any formula
+    if not node.isWellFormedASTNode():
+        msg = f"Function {fn.__name__} cannot be represented in SBML"
+        raise NotImplementedError(msg)
+    return node
 
 
 ##########################################################################
